@@ -111,7 +111,18 @@ def run(ck, models, tier):
                           "normal path of %s performs %d writes at the function entry (expected exactly 1) [%s]" % (rn, len(entries), fmt_dec(v)))
                     continue
                 if not tramps:
-                    ck.ob("R1.1", "%s/no-trampoline-write" % rn, tm.target, False, "normal path of %s writes no trampoline code" % rn)
+                    # direct form: the entry itself must branch to the replacement
+                    eev, _, edst, ereal, alias = entries[0]
+                    try:
+                        esim, edest = x86_transfer(eev, v)
+                        ok, why = dest_equals(edest, repl) if (edest and repl is not None) else (False, "no trampoline and no branch to the replacement")
+                        ck.ob("R1.1", "%s/entry/direct/dest" % rn, tm.target, ok, "no trampoline on this path; entry patch decodes to %s; %s" % (
+                            " ; ".join(i["mn"] for i in esim["ins"]), why), where(eev))
+                        if ok:
+                            n_entry += 1
+                            check_protection(ck, tm, p, v, eev, edst, eev.extra["count"], "entry")
+                    except (RangeProblem, isa.Undecodable) as e:
+                        ck.ob("R1.1", "%s/entry/direct/undecodable" % rn, tm.target, False, "entry bytes: %s" % e, where(eev))
                     continue
                 # trampoline(s): last trampoline write decides what runs
                 tev, _, tdst, _, _ = tramps[-1]
